@@ -652,6 +652,8 @@ pub struct Vma {
     pub r: bool,
     pub w: bool,
     pub locked: bool,
+    /// VM_DONTCOPY (`dc`): the mapping is not inherited by a forked child (MADV_DONTFORK)
+    pub dontfork: bool,
 }
 
 fn read_file(path: &str, buf: &mut Vec<u8>) -> bool {
@@ -695,10 +697,11 @@ pub fn smaps(scratch: &mut Vec<u8>, out: &mut Vec<Vma>) -> bool {
             i += 1;
             let r = line.get(i) == Some(&b'r');
             let w = line.get(i + 1) == Some(&b'w');
-            cur = Some(Vma { start, end, r, w, locked: false });
+            cur = Some(Vma { start, end, r, w, locked: false, dontfork: false });
         } else if line.starts_with(b"VmFlags:") {
             if let Some(v) = cur.as_mut() {
                 v.locked = line[8..].split(|b| *b == b' ').any(|t| t == b"lo");
+                v.dontfork = line[8..].split(|b| *b == b' ').any(|t| t == b"dc");
             }
         }
     }
